@@ -71,6 +71,10 @@ theorem readPacket_eq : Gen.readPacket = readPacket := by
               rcases (Packet.dispatch b0).unmarshal body with ⟨q, st⟩
               cases st <;> rfl
 
+/-- every error test of the five stream functions is `err != nil` (the translator accepts `err == nil` in the same
+places so that such a flip is refuted here rather than making the function unrecognisable) -/
+theorem err_tests : Gen.streamErrTests.length = 5 ∧ Gen.streamErrTests.all (·.2) = true := by decide
+
 theorem complete : Gen.untranslatedStream = [] := by decide
 
 end Mq.Tie.Stream
